@@ -311,6 +311,7 @@ theorem Reachable.selfOne {b : Book} (r : Reachable b) : SelfOne b := by
   | @retry b r0 ih => exact ih.steps (steps_retryParked _ r0.inv.parkOk)
   | trust a _ ih => exact ih.tr (Tr.misc (coreEq_addTrusted _ a))
   | untrust a _ ih => exact ih.tr (Tr.misc (coreEq_removeTrusted _ a))
+  | steps _ s ih => exact ih.steps s
   | @truncate b cut _ ih =>
     cases hr : (b.truncateAt cut).2 with
     | error e => rw [truncateAt_err hr]; exact ih
